@@ -35,6 +35,9 @@ class PathCap(BaseException):
     pass
 
 
+DEPTH_CAP = 4000         # decisions on ONE path; beyond it the function is undecided (status pathcap)
+
+
 class TwinDone(BaseException):
     """a must-fail twin has produced its failing obligation: stop"""
 
@@ -99,6 +102,8 @@ class Path(object):
         if z3.is_false(cond):
             return False
         i = len(self.taken)
+        if i > DEPTH_CAP:
+            raise PathCap('more than %d decisions on one path (a loop without an invariant?)' % DEPTH_CAP)
         site = site or _site()
         if i < len(self.prefix):
             d, forced = self.prefix[i]
@@ -122,6 +127,8 @@ class Path(object):
     def choice(self, n, site=None):
         """harness-level nondeterminism: every alternative 0..n-1 is explored"""
         i = len(self.taken)
+        if i > DEPTH_CAP:
+            raise PathCap('more than %d decisions on one path (a loop without an invariant whose exit is an environment choice?)' % DEPTH_CAP)
         site = site or _site()
         if i < len(self.prefix):
             d, forced = self.prefix[i]
